@@ -29,7 +29,15 @@ import (
 	"strings"
 )
 
-func init() { register("concatmsg", extractConcatMsg) }
+func init() {
+	register("concatmsg", extractConcatMsg)
+	registerFallback("concatmsg", "ConcatMsgTable.v", "(* Gen/ConcatMsgTable.v — translator tie UNAVAILABLE: tools/go2v (extractor \"concatmsg\") did not recognise\n"+
+		"   the shape of schema/message.go; the model's own tables are re-exported. *)\n"+
+		"From Eino Require Import Base.Util Model.ConcatMsgTable.\n\n"+
+		"Definition message_fields : list (string * list string) := Model.ConcatMsgTable.message_fields.\n\n"+
+		"Definition message_handling : list (string * mh) := Model.ConcatMsgTable.message_handling.\n\n"+
+		"Definition toolcall_handling : list (string * mh) := Model.ConcatMsgTable.toolcall_handling.\n")
+}
 
 func es(e ast.Expr) string { return strings.ReplaceAll(types.ExprString(e), " ", "") }
 
